@@ -170,6 +170,8 @@ pub struct PoolGen {
     pub allow_config: bool,
     pub allow_create: bool,
     pub max_pools: usize,
+    /// which single kind of fee (if any) the scripted 6/18-decimals stable pool charges
+    pub fee_variant: usize,
     /// relative weights: swap, route, provide, single, withdraw, create, donate, admin, garbage
     pub weights: [u32; 9],
 }
@@ -187,7 +189,8 @@ impl PoolGen {
             allow_toggles: true,
             allow_config: true,
             allow_create: true,
-            max_pools: 9,
+            max_pools: 11,
+            fee_variant: 0,
             weights: [30, 12, 14, 8, 10, 4, 4, 3, 5],
         }
     }
@@ -203,7 +206,14 @@ impl PoolGen {
         s.push(create_pool_op(w, &u1, &["uusdc", "uusdt"], PoolType::StableSwap { amp: 100 }, pool_fee(5, 4, 1, &[]), Some("stable2")));
         s.push(create_pool_op(w, &u1, &["uusdc", "uusdt", "udai"], PoolType::StableSwap { amp: 85 }, pool_fee(2, 10, 0, &[3, 2]), None));
         s.push(create_pool_op(w, &u0, &["uusdc", "uusdt", "uwbtc", "udai"], PoolType::StableSwap { amp: 10 }, pool_fee(0, 20, 10, &[]), Some("four")));
-        s.push(create_pool_op(w, &u1, &["uusdc", "udai"], PoolType::StableSwap { amp: 2000 }, pool_fee(0, 0, 0, &[]), Some("z618")));
+        // the 6/18-decimals stable pool charges no fee at all or exactly one kind of fee
+        let zf = match self.fee_variant % 4 {
+            0 => pool_fee(0, 0, 0, &[]),
+            1 => pool_fee(0, 0, 7, &[]),
+            2 => pool_fee(9, 0, 0, &[]),
+            _ => pool_fee(0, 0, 0, &[0, 4]),
+        };
+        s.push(create_pool_op(w, &u1, &["uusdc", "udai"], PoolType::StableSwap { amp: 2000 }, zf, Some("z618")));
         // a nearly worthless 18-decimals token against a precious 6-decimals one: the base-unit
         // price lies below 1e-18
         s.push(create_pool_op(w, &u0, &["ueth", "uusdt"], PoolType::ConstantProduct, pool_fee(0, 30, 0, &[]), Some("lop")));
@@ -654,7 +664,12 @@ impl PoolGen {
             1 => pool_fee(500, 500, 500, &[250, 250]), // exactly the 20% cap
             2 => pool_fee(self.rng.gen_range(0..100), self.rng.gen_range(0..100), self.rng.gen_range(0..50), &[]),
             3 => pool_fee(1, 1, 1, &[1, 1, 1]),
-            4 => pool_fee(0, self.rng.gen_range(1..1900), 0, &[]),
+            4 => match self.rng.gen_range(0..4) {
+                0 => pool_fee(0, self.rng.gen_range(1..1900), 0, &[]),
+                1 => pool_fee(0, 0, self.rng.gen_range(1..1900), &[]),
+                2 => pool_fee(self.rng.gen_range(1..1900), 0, 0, &[]),
+                _ => pool_fee(0, 0, 0, &[0, self.rng.gen_range(1..1900)]),
+            },
             _ => pool_fee(self.rng.gen_range(0..300), self.rng.gen_range(0..300), self.rng.gen_range(0..300), &[self.rng.gen_range(0..300)]),
         };
         self.explicit_n += 1;
@@ -685,7 +700,14 @@ impl PoolGen {
                     2 => *pool_type = PoolType::StableSwap { amp: 0 },
                     3 => pool_fees.swap_fee = Fee { share: Decimal::percent(100) },
                     4 => pool_fees.extra_fees.push(Fee { share: Decimal::percent(19) }),
-                    5 => *pool_identifier = Some("bad id!".to_string()),
+                    5 => {
+                        // an identifier already taken (whatever the asset list of this request), or a malformed one
+                        let taken: Vec<String> = obs.pools.keys().filter_map(|k| k.strip_prefix("o.").map(|x| x.to_string())).collect();
+                        *pool_identifier = match taken.choose(&mut self.rng) {
+                            Some(t) if self.rng.gen_bool(0.7) => Some(t.clone()),
+                            _ => Some("bad id!".to_string()),
+                        };
+                    }
                     6 => *pool_identifier = Some("a".repeat(60)),
                     7 => {
                         funds.clear();
